@@ -245,9 +245,12 @@ class Gen:
         P, q = "P%d" % p.idx, p.id
         lg, lb, bi = q + "lg", q + "lb", q + "bi"
         nfiles = r.choice([1, 1, 2, 2, 3, 3, 4])
-        names = r.sample(FILE_NAMES, nfiles)
+        names = []
+        for cand in r.sample(FILE_NAMES, len(FILE_NAMES)):       # go rejects case-insensitive file name collisions
+            if len(names) < nfiles and cand.lower() not in [x.lower() for x in names]:
+                names.append(cand)
         p.files = sorted(names)           # go list / the go tool present files in byte order of their names
-        if len(set(n.lower() for n in names)) != len(names):
+        if sorted(names) != sorted(names, key=lambda x: x.lower()):
             self.feat(p, "files:case-order")
         self.feat(p, "files:%d" % nfiles)
         decls = p.decls
@@ -298,7 +301,7 @@ class Gen:
         if p.is_main:
             std_budget = r.choice([0, 1, 1, 2])
 
-        def expr_terms(extra_hidden=True):
+        def expr_terms(extra_hidden=True, cond=False):
             """returns (expr string, users, std)"""
             nonlocal helpers, hidden, std_budget
             terms = [str(r.randrange(1, 9))]
@@ -332,7 +335,7 @@ class Gen:
                 terms.append("%s.hget()" % hn)
                 self.feat(p, "dep:hidden-iface")
             if r.random() < 0.2:
-                terms.append("%s(%s, %d)" % (lg, ev("n%d" % len(p.labels)), r.randrange(1, 5)))
+                terms.append("%s(%s, %d)" % (lg, ev("n%d" % (len(p.labels) + len(p.cond_labels)), cond), r.randrange(1, 5)))
                 self.feat(p, "expr:nested-log")
             r.shuffle(terms)
             return " + ".join(terms), users, std
@@ -452,7 +455,7 @@ class Gen:
                 reads = ['%s["x"]' % n0, '%s["y"]' % n0, 'len(%s)' % n0]
             elif k == "bool":
                 e1, u1, s1 = expr_terms()
-                e2, u2, s2 = expr_terms(False)
+                e2, u2, s2 = expr_terms(False, cond=True)      # right operand: evaluated only if the left one does not decide
                 op = r.choice(["&&", "||"])
                 c1, c2 = r.randrange(0, 40), r.randrange(0, 40)
                 add("var %s = %s(%s, %s > %d) %s %s(%s, %s > %d)\n" % (
@@ -694,6 +697,8 @@ def generate(seed, idx, heavy=1, avoid=()):
             for b in range(a + 1, len(ds)):
                 if (reach[ds[a]] | {ds[a]}) & (reach[ds[b]] | {ds[b]}):
                     diamonds += 1
+    if orphan >= 0:
+        g.features.append("orphan-package")
     feats = sorted(g.features)
     meta = {
         "seed": seed, "index": idx, "module": modpath, "main_pkg": "./" + main_dir if main_dir else ".",
